@@ -39,6 +39,7 @@ import signal
 import pickle
 import sys
 import tempfile
+import types
 
 import egsim  # noqa: F401
 from egsim import classes as C
@@ -185,7 +186,23 @@ def enc(w, val):
         else:
             body = {"bytes": [len(val), engine.h64(bytes(val[:64]).hex() + str(len(val)))]}
         return {"c": num, "v": body}
+    if isinstance(val, types.FunctionType):
+        # a function is what it is called and what it answers
+        try:
+            answer = val(3)
+        except Exception as exc:  # pylint: disable=broad-except
+            answer = "!" + type(exc).__name__
+        return {"function": val.__qualname__, "module": val.__module__, "of-3": answer}
     return f"?{type(val).__name__}"
+
+
+def main_function(n):
+    """A function whose globals are the namespace of the running script (__main__)."""
+    import __main__
+
+    ns = {}
+    exec(compile(f"def script_callback_{n}(x):\n    return x * {n + 2}\n", "<script>", "exec"), __main__.__dict__, ns)  # pylint: disable=exec-used
+    return ns[f"script_callback_{n}"]
 
 
 def record(w, obj, with_uid=True):
@@ -269,6 +286,8 @@ class PExec(O.Exec):
                 # exactly the object a public accessor hands out (kept by the user as an attribute)
                 lab, name = v["accessor"]
                 return getattr(self.g(lab), name)
+            if "mainfn" in v:
+                return main_function(v["mainfn"])
             if "blob" in v:
                 # one bytes OBJECT per (size, key) in this world, so that several
                 # attributes can share it
@@ -799,7 +818,12 @@ class C10(engine.Property):
         name = rng.choice(ATTR_NAMES)
         r = rng.random()
         refs = view.vertices() + view.edges() or objs
-        if r < 0.05 and view.edges():
+        if r < 0.03:
+            # a callback kept on a graph object, defined by the running script
+            # itself (its globals are the namespace of __main__)
+            val = {"mainfn": rng.randrange(3)}
+            st.stats["probe:attribute-holding-a-function-of-the-running-script"] += 1
+        elif r < 0.05 and view.edges():
             e = rng.choice(view.edges())
             val = {"accessor": [e, "vertices"]}
             st.stats["probe:attribute-holding-an-accessor-result"] += 1
